@@ -179,7 +179,14 @@ def rule_dispatch_hf(ctx: Ctx, rep: Report) -> None:
     rep.floor("C03.dispatch_hf", 3)
 
 
+def rule_own_fields(ctx: Ctx, rep: Report) -> None:
+    """C03.own_fields: an object hands its own fields to the functions it delegates to (see sigcommon.rule_own_fields_forwarded)."""
+    from rules.sigcommon import rule_own_fields_forwarded
+    rule_own_fields_forwarded(ctx, rep, "C03.own_fields", ('btclib.ecc.ssa',), 3)
+
+
 RULES = [
+    ("C03.own_fields", rule_own_fields),
     ("C03.dispatch_hf", rule_dispatch_hf),
     ("C03.signer_arm", rule_signer_arm),
     ("C03.signer_config", rule_signer_config),
